@@ -463,6 +463,28 @@ def protocol_integration(res):
                 key = 'lsfloat:%d:%s' % (tlv_type, bits)
                 pool[key] = mark + _st.pack('!HB', len(body) + 19, 2) + body
                 script.append(('chunk', key))
+        # BGP-LS NLRI (every NLRI type) whose descriptor list holds a TLV type the agent has no decoder for
+        for nt in (1, 2, 3, 4, 6):
+            desc = _st.pack('!HH', 999, 2) + b'\xab\xcd'
+            nl = bytes([2]) + _st.pack('!Q', 0) + desc
+            nlri = _st.pack('!HH', nt, len(nl)) + nl
+            mp = _st.pack('!HB', 16388, 71) + bytes([4, 10, 0, 0, 1]) + b'\x00' + nlri
+            attr = bytes.fromhex('40010100' '400200') + bytes([0x90, 14]) + _st.pack('!H', len(mp)) + mp
+            body = _st.pack('!H', 0) + _st.pack('!H', len(attr)) + attr
+            key = 'lsdesc:%d' % nt
+            pool[key] = mark + _st.pack('!HB', len(body) + 19, 2) + body
+            script.append(('chunk', key))
+        # BGP-LS TLVs whose value the decoder turns into ONE integer, with values of 8, 600 and 2000 octets (a number of more than
+        # 4300 decimal digits cannot be written by json.dump in CPython 3.11+)
+        for tlv_type in (1088, 1092, 1095, 1028, 1155):
+            for nbytes in (8, 600, 2000):
+                val = bytes((i * 7 + 1) & 255 for i in range(nbytes))
+                blk = _st.pack('!HH', tlv_type, len(val)) + val
+                attr = bytes([0x90, 29]) + _st.pack('!H', len(blk)) + blk
+                body = _st.pack('!H', 0) + _st.pack('!H', len(attr)) + attr
+                key = 'lsbig:%d:%d' % (tlv_type, nbytes)
+                pool[key] = mark + _st.pack('!HB', len(body) + 19, 2) + body
+                script.append(('chunk', key))
         script += [('chunk', 'keepalive'), ('chunk', 'notif_cease'), ('lost', 0)]
         trace = []
         msgdir = os.path.join(root, '10.0.0.2', 'msg')
